@@ -5,26 +5,29 @@
    grammar as an abstract value hv denoting the Go value) with the two directions of
    Proofs/DecRefines*.v: whatever the decoder model makes of the encoder's bytes, it makes of every
    other byte string that the grammar reads as the same hv - same decoded value, same reference
-   table, nothing left over. *)
+   table, nothing left over.  Hypotheses on the Go value only: those of C02, byte-slice payloads
+   are octets (`pok`), no timestamp other than the zero time (`notime`: the compact date form is
+   the known finding C03-F1). *)
 From Coq Require Import ZArith List Lia.
 From GH Require Import Base.GoSem Base.Result Base.Utf8 Gen.GoLeaf Model.Scalars Model.Strings Spec.Grammar
-  Model.Encoder Model.Decoder Model.Session Proofs.EncoderFacts Proofs.EncSpec Proofs.DecRefines Proofs.DecRefinesConv Props.C02struct.
+  Model.Encoder Model.Decoder Model.Session Proofs.EncoderFacts Proofs.EncSpec Proofs.EncBytes Proofs.DecRefines Proofs.DecRefinesConv Proofs.DenReg Props.C02struct.
 Import ListNotations.
 Open Scope Z_scope.
 
 Theorem C03_any_rendering_decodes_like_the_encoders_own : forall nm F v st' te tm,
   write_data v (estate0 nm) = Ok st' -> small st' -> nm_complete nm v = true ->
-  wfv nm F (S (length (ebytes st'))) v -> (need v <= S (S (length (ebytes st'))))%nat ->
+  wfv nm F (S (length (ebytes st'))) v -> (need v <= S (S (length (ebytes st'))))%nat -> pok v -> notime v ->
   exists hv pst1, den nm F [] v hv (erefs st') /\ hparse pstate0 (ebytes st') = Ok (hv, [], pst1) /\
     forall bs2 st2 d r1 s1, hparse pstate0 bs2 = Ok (hv, [], st2) ->
-      bytes_ok (ebytes st') -> bytes_ok bs2 -> reg hv ->
+      bytes_ok bs2 ->
       decode te tm (ebytes st') = Ok (d, r1, s1) ->
       decode te tm bs2 = Ok (d, [], dst_of st2 (dheap s1)).
 Proof.
-  intros nm F v st' te tm W Sm Hc Hw Hn.
+  intros nm F v st' te tm W Sm Hc Hw Hn Pk Nt.
   destruct (encode_parses nm F _ v st' W Sm Hc Hw) as (hv & pst1 & D & V).
   exists hv, pst1. split; [exact D|]. split; [unfold hparse; apply V; exact Hn|].
-  intros bs2 st2 d r1 s1 P2 B1 B2 Rg D1.
+  intros bs2 st2 d r1 s1 P2 B2 D1. pose proof (encode_octets nm v st' Pk W) as B1.
+  pose proof (den_reg nm F _ _ _ _ D Nt) as Rg.
   refine (proj2 (proj2 (renderings_decode_alike_iff te tm (ebytes st') bs2 hv pst1 st2 d r1 s1 _ P2 B1 B2 Rg D1))).
   unfold hparse. apply V. exact Hn.
 Qed.
@@ -51,7 +54,8 @@ Proof.
   cbv zeta.
   destruct C02struct.C02_structural_nonvacuous as (st' & W & Sm & Hc & Hw & Hn & _).
   destruct (C03_any_rendering_decodes_like_the_encoders_own _ _ _ _
-              [([80], [([65], TInt KInt32); ([78], TPtr (TStruct [80]))])] [([80], TStruct [80])] W Sm Hc Hw Hn)
+              [([80], [([65], TInt KInt32); ([78], TPtr (TStruct [80]))])] [([80], TStruct [80])] W Sm Hc Hw Hn
+              ltac:(repeat (constructor; cbn [snd])) ltac:(repeat (constructor; cbn [snd])))
     as (hv & pst1 & _ & P1 & K).
   assert (E : exists bs, ebytes st' = bs /\ bytes_okb bs = true /\ bs <> [67; 1; 80; 146; 1; 97; 1; 110] ++ [79; 144] ++ [73; 0; 0; 0; 5] ++ [81; 73; 0; 0; 0; 0]).
   { vm_compute in W. inversion W; subst. eexists. split; [reflexivity|]. split; [vm_compute; reflexivity|vm_compute; discriminate]. }
@@ -65,7 +69,5 @@ Proof.
   eexists st', s1, _. rewrite Eb. split; [exact W|]. split; [exact Nb|]. split; [exact D1|].
   eapply K; try exact D1.
   - vm_compute. reflexivity.
-  - apply bytes_okb_ok. exact Bb.
   - apply bytes_okb_ok. vm_compute. reflexivity.
-  - repeat (constructor; cbn [snd]).
 Qed.
